@@ -193,6 +193,10 @@ func childMain(run *ev.Run, spec, store, root string) {
 
 // ---- minimisation -----------------------------------------------------------------------------------
 
+// candidateTimeout is a backstop that bounds DuckDB on a minimisation candidate (queries with a recursive CTE,
+// whose shortened forms may not terminate, are not shortened at all, see minimize).
+const candidateTimeout = 60 * time.Second
+
 type minimizer struct {
 	w    *worker
 	memo map[string]string
@@ -212,7 +216,7 @@ func (m *minimizer) kindOf(q *query, ordered bool, want string) string {
 	ok, seen := m.memo[okey]
 	if !seen {
 		ok = "fails"
-		if a := m.w.askOracleTimeout(sqlText, q.Hdr, 10*time.Second); a.OK {
+		if a := m.w.askOracleTimeout(sqlText, q.Hdr, candidateTimeout); a.OK {
 			ok = "answers"
 		} else if a.Err == "timeout" {
 			ok = "timeout"
@@ -316,6 +320,9 @@ func simpler(toks []string, i int) []string {
 	}
 	if len(tok) >= 2 && tok[0] == '\'' {
 		add("'a'")
+	}
+	if low := strings.ToLower(tok); low != tok && (low == "host" || low == "v" || low == "n" || low == "note" || low == "time") {
+		add(low)
 	}
 	if len(tok) >= 2 && tok[0] == '"' && tok[len(tok)-1] == '"' {
 		if in := tok[1 : len(tok)-1]; simpleIdent(in) {
@@ -437,6 +444,11 @@ func (m *minimizer) minimize(q *query, kind string) *query {
 	if strings.Contains(kind, "order-differs") {
 		return cur // dropping ORDER BY tokens would make the order itself arbitrary
 	}
+	for _, t := range cur.Toks {
+		if strings.EqualFold(t, "RECURSIVE") {
+			return cur // dropping tokens of a recursive CTE yields non-terminating candidates
+		}
+	}
 	for round := 0; round < 3; round++ {
 		ix := make([]int, len(cur.Toks))
 		for i := range ix {
@@ -508,7 +520,16 @@ func canonTok(t string) string {
 	if refCanon[t] {
 		return "cpu"
 	}
-	return t
+	if t == "" || t[0] == '\'' {
+		return t
+	}
+	// identifiers and keywords compare case-insensitively, a quoted simple identifier like the bare one
+	if j := strings.LastIndex(t, "."); j >= 0 && len(t) > j+2 && t[j+1] == '"' && t[len(t)-1] == '"' && simpleIdent(t[j+2:len(t)-1]) {
+		t = t[:j+1] + t[j+2:len(t)-1]
+	} else if len(t) > 2 && t[0] == '"' && t[len(t)-1] == '"' && simpleIdent(t[1:len(t)-1]) {
+		t = t[1 : len(t)-1]
+	}
+	return strings.ToUpper(t)
 }
 
 func signature(kind string, q *query) string {
@@ -708,7 +729,15 @@ func main() {
 		os.WriteFile(p, b, 0o644)
 	}
 	debug := os.Getenv("VERIF_C16_DEBUG") != ""
-	mz := &minimizer{w: w0, memo: map[string]string{}}
+	// Minimisation runs in rounds on a pool of in-process workers (each its own Arc DuckDB, handler and
+	// oracles). A round takes, in list order, the first failures that no known class subsumes and that differ
+	// pairwise in (kind, template, header); they are minimised in parallel and merged in list order, so the
+	// outcome does not depend on goroutine timing.
+	poolSize := 8
+	if n, err := strconv.Atoi(os.Getenv("VERIF_C16_MINIMIZERS")); err == nil && n > 0 {
+		poolSize = n
+	}
+	pool := []*minimizer{{w: w0, memo: map[string]string{}}}
 	var classes []*class
 	bySig := map[string]*class{}
 	kindHist := map[string]int{}
@@ -720,54 +749,109 @@ func main() {
 		}
 		return nil
 	}
+	type job struct {
+		f        *failure
+		red, min *query
+		err      string
+		secs     float64
+		runs     int
+	}
 	for _, f := range fails {
 		kindHist[f.Kind]++
-		if c := find(f.Q, f.Kind); c != nil {
-			c.Count++
-			continue
-		}
-		mz.pair = strings.HasPrefix(f.Kind, crossPrefix)
-		if k := mz.kindOf(f.Q, f.Q.Ordered, ""); k != f.Kind {
-			cleanup()
-			ev.Nondeterminism(fmt.Sprintf("%q (header %q): a worker process reported %q, the replay in the main process %q", showSQL(f.Q.SQL()), f.Q.Hdr, f.Kind, k))
-		}
-		t0, r0 := time.Now(), mz.runs
-		red := mz.reduce(f.Q, f.Kind)
-		if c := find(red, f.Kind); c != nil {
-			c.Count++
-			if debug {
-				fmt.Fprintf(os.Stderr, "reduced   %5.1fs %4d runs  %s -> %s\n", time.Since(t0).Seconds(), mz.runs-r0, showSQL(f.Q.SQL()), c.Sig)
+	}
+	minRuns, rounds := 0, 0
+	pending := fails
+	for len(pending) > 0 {
+		rounds++
+		var batch []*job
+		var rest []*failure
+		keys := map[string]bool{}
+		for _, f := range pending {
+			if c := find(f.Q, f.Kind); c != nil {
+				c.Count++
+				continue
 			}
-			continue
-		}
-		min := mz.minimize(red, f.Kind)
-		sig := signature(f.Kind, min)
-		if debug {
-			fmt.Fprintf(os.Stderr, "minimised %5.1fs %4d runs  %s -> %s\n", time.Since(t0).Seconds(), mz.runs-r0, showSQL(f.Q.SQL()), sig)
-		}
-		if c, ok := bySig[sig]; ok {
-			c.Count++
-			continue
-		}
-		// the minimal case must reproduce identically, twice, from a cold cache
-		var detail string
-		for i := 0; i < 2; i++ {
-			w0.handler.InvalidateCaches()
-			if mz.pair {
-				w0.askArc(min.SQL(), otherHeader(min.Hdr))
+			k := f.Kind + "\x00" + f.Q.Tmpl + "\x00" + f.Q.Hdr
+			if len(batch) < poolSize && !keys[k] {
+				keys[k] = true
+				batch = append(batch, &job{f: f})
+			} else {
+				rest = append(rest, f)
 			}
-			qq := *min
-			qq.Ordered = strings.Contains(f.Kind, "order-differs")
-			v := w0.judgeCounted(&qq, map[string]int64{})
-			if v.Kind != f.Kind {
+		}
+		pending = rest
+		for len(pool) < len(batch) {
+			pool = append(pool, nil)
+		}
+		var wg sync.WaitGroup
+		for i, j := range batch {
+			wg.Add(1)
+			go func(i int, j *job) {
+				defer wg.Done()
+				if pool[i] == nil {
+					pool[i] = &minimizer{w: newWorker(store, filepath.Join(scratch, fmt.Sprintf("w-min%d", i))), memo: map[string]string{}}
+				}
+				mz := pool[i]
+				t0, r0 := time.Now(), mz.runs
+				mz.pair = strings.HasPrefix(j.f.Kind, crossPrefix)
+				if k := mz.kindOf(j.f.Q, j.f.Q.Ordered, ""); k != j.f.Kind {
+					j.err = fmt.Sprintf("%q (header %q): a worker process reported %q, the replay in the main process %q", showSQL(j.f.Q.SQL()), j.f.Q.Hdr, j.f.Kind, k)
+					return
+				}
+				j.red = mz.reduce(j.f.Q, j.f.Kind)
+				j.min = mz.minimize(j.red, j.f.Kind)
+				j.secs, j.runs = time.Since(t0).Seconds(), mz.runs-r0
+			}(i, j)
+		}
+		wg.Wait()
+		for _, j := range batch {
+			f := j.f
+			if j.err != "" {
 				cleanup()
-				ev.Nondeterminism("minimal case for " + sig + " did not reproduce: " + v.Kind)
+				ev.Nondeterminism(j.err)
 			}
-			detail = v.Detail
+			minRuns += j.runs
+			if c := find(f.Q, f.Kind); c != nil { // a class created earlier in this round
+				c.Count++
+				continue
+			}
+			if c := find(j.red, f.Kind); c != nil {
+				c.Count++
+				continue
+			}
+			sig := signature(f.Kind, j.min)
+			if debug {
+				fmt.Fprintf(os.Stderr, "round %d minimised %5.1fs %4d runs  %s -> %s\n", rounds, j.secs, j.runs, showSQL(f.Q.SQL()), sig)
+			}
+			if c, ok := bySig[sig]; ok {
+				c.Count++
+				continue
+			}
+			// the minimal case must reproduce identically, twice, from a cold cache
+			var detail string
+			for i := 0; i < 2; i++ {
+				w0.handler.InvalidateCaches()
+				if strings.HasPrefix(f.Kind, crossPrefix) {
+					w0.askArc(j.min.SQL(), otherHeader(j.min.Hdr))
+				}
+				qq := *j.min
+				qq.Ordered = strings.Contains(f.Kind, "order-differs")
+				v := w0.judgeCounted(&qq, map[string]int64{})
+				if v.Kind != f.Kind {
+					cleanup()
+					ev.Nondeterminism("minimal case for " + sig + " did not reproduce: " + v.Kind)
+				}
+				detail = v.Detail
+			}
+			c := &class{Min: j.min, Kind: f.Kind, Sig: sig, Count: 1, First: f, Detail: detail}
+			classes = append(classes, c)
+			bySig[sig] = c
 		}
-		c := &class{Min: min, Kind: f.Kind, Sig: sig, Count: 1, First: f, Detail: detail}
-		classes = append(classes, c)
-		bySig[sig] = c
+	}
+	for _, mz := range pool[1:] {
+		if mz != nil {
+			mz.w.close()
+		}
 	}
 	tClass := time.Since(tStart) - tEnum
 	for _, c := range classes {
@@ -810,7 +894,8 @@ func main() {
 		"cold_state_not_reached": counters["cache_cold_state_not_reached"], "warm_state_not_reached": counters["cache_warm_state_not_reached"]}
 	run.Coverage["failing_cases_before_minimisation"] = len(fails)
 	run.Coverage["violated_oracles_before_minimisation"] = kindHist
-	run.Coverage["minimisation_runs"] = mz.runs
+	run.Coverage["minimisation_runs"] = minRuns
+	run.Coverage["minimisation_rounds"] = rounds
 	run.Coverage["dataset_rows"] = nrows
 	run.Coverage["samples"] = samples
 	run.Coverage["exhaustive"] = complete && int(counters["evaluations"]) == total && os.Getenv("VERIF_C16_FILTER") == ""
@@ -821,7 +906,7 @@ func main() {
 	run.Assume("compared: columns, data (cell values by value: numbers numerically, timestamps as instants, NULL), row_count, and success/failure; never execution_time_ms, timestamp or error text (response encoding is C19's business). Arc runs with threads=1 and preserve_insertion_order=true so that POSITIONAL JOIN is deterministic on both sides")
 	run.Assume("outside the grammar: time_bucket/date_trunc/regex/LIKE rewrites (C17), time-literal predicates and partition pruning (C18), db-qualified references together with the header (rejected by design), a measurement referenced in a different letter case than it is stored under (Arc's measurement names are case-sensitive directory names), more than two tables, aggregates over non-integer doubles, S3/Azure backends, tiering, RBAC")
 	fmt.Printf("C16 cases=%d judged=%d nontrivial=%d distinct_answers=%d both_fail=%d cache(cold+warm=%d not-consulted=%d) failing=%d classes=%d minimisation_runs=%d enumeration=%.1fs classification=%.1fs\n",
-		total, counters["evaluations"], counters["nontrivial"], len(hashes), counters["both_fail"], counters["cache_cold_then_warm"], counters["cache_not_consulted"], len(fails), len(classes), mz.runs, tEnum.Seconds(), tClass.Seconds())
+		total, counters["evaluations"], counters["nontrivial"], len(hashes), counters["both_fail"], counters["cache_cold_then_warm"], counters["cache_not_consulted"], len(fails), len(classes), minRuns, tEnum.Seconds(), tClass.Seconds())
 	if len(hashes) < 2 {
 		fmt.Println("C16 VACUITY WARNING: fewer than two distinct answers")
 	}
